@@ -146,11 +146,11 @@ def parse_item_block(lines, start, file, path):
                 raise WeaveError("bad anchor at line %d" % (i + 1))
             pending_insert = (where, mm.group(1).replace("\\n", "\n"), [])
             spec.inserts.append(pending_insert)
-        elif b.startswith("cut["):
-            mm = re.match(r"cut\[([^\]]+)\]\s*<<<(.*?)>>>\s*\.\.\s*<<<(.*?)>>>\s*=>\s*<<<(.*)>>>$", b, re.S)
+        elif b.startswith("cut[") or b.startswith("cut?["):
+            mm = re.match(r"cut(\?)?\[([^\]]+)\]\s*<<<(.*?)>>>\s*\.\.\s*<<<(.*?)>>>\s*=>\s*<<<(.*)>>>$", b, re.S)
             if not mm:
                 raise WeaveError("bad cut at line %d: %s" % (i + 1, b))
-            spec.replaces.append((mm.group(1), (mm.group(2), mm.group(3)), mm.group(4), "cut"))
+            spec.replaces.append((mm.group(2), (mm.group(3), mm.group(4)), mm.group(5), "cut?" if mm.group(1) else "cut"))
         elif b.startswith("replace"):
             mm = re.match(r"replace(-all|\?)?\[([^\]]+)\]\s*<<<(.*?)>>>\s*=>\s*<<<(.*)>>>$", b, re.S)
             if not mm:
@@ -775,8 +775,10 @@ def expand(unit_path, twin=False, repo=None):
             text = raw
             applied = []
             for rule, old, new, all_ in spec.replaces:
-                if all_ == "cut":
+                if all_ in ("cut", "cut?"):
                     a_, b_ = old[0].replace("\\n", "\n"), old[1].replace("\\n", "\n")
+                    if all_ == "cut?" and text.count(a_) == 0:
+                        continue
                     if text.count(a_) != 1:
                         raise WeaveError("%s :: %s: cut[%s] start %r matched %d times" % (file, " :: ".join(path), rule, old[0], text.count(a_)))
                     p0 = text.index(a_)
